@@ -225,7 +225,7 @@ def run(ctx):
     for (tag, powers, bi) in ((("eq0", [1, 1, 1, 1], 0),) if quick else (("eq0", [1, 1, 1, 1], 0), ("eq3", [1, 1, 1, 1], 3), ("w2", [2, 2, 1, 1], 2))):
         info3 = cc.run_driver(ctx, binp, {"mode": "info", "powers": powers, "byz": [], "maxround": 4}, "info" + tag)
         byz3 = [info3["names"][bi]]
-        attacks = [a for a in load_attacks() if a["powers"] == powers and a["byz"] == byz3]
+        attacks = [a for a in load_attacks() if a["powers"] == powers and a["byz"] == byz3 and not a.get("restart")]
         scheds = [{"id": 100000 + k, "steps": a["steps"]} for k, a in enumerate(attacks)]
         inp = {"mode": "replay", "powers": powers, "byz": byz3, "maxround": 3, "filepv": True, "scheds": scheds,
                "random": 25 if quick else 400, "randlen": 150}
@@ -234,6 +234,11 @@ def run(ctx):
         account(v, rows, "3+1 " + tag)
         cov["configs"].append({"config": "3 correct + 1 Byzantine (%s), powers %s" % (byz3[0], powers), "attack_schedules": [a["name"] for a in attacks],
                                "driver": stats, "events_validated_after_prefix_dedupe": v["events"]})
+
+    # ---------------- R. the validator is stopped and started inside the height (real receiveRoutine, WAL, catchupReplay) ----
+    # "once it has precommitted a block it prevotes nothing else ... until a more recent polka": the lock has to survive
+    cc.restart_section(ctx, binp, load_attacks(), account, cov, tot, label="R2", exhaustive=not quick,
+                       only_weak=None if not quick else ("ClaimsNotLogged", "WalSkipsBlockParts"))
 
     coverage = {
         "states": tot["states"], "transitions": tot["transitions"], "traces_validated_against_impl": tot["runs"],
